@@ -22,6 +22,7 @@ def dispatch (j : Json) : R Json := do
   | "srvhs" => HsD.handleSrv j
   | "srvjudge" => HsD.handleJudge j
   | "srvwants" => HsD.handleWants j
+  | "srvserve" => HsD.handleServe j
   | "clihs" => CliD.handleCli j
   | "cliwants" => CliD.handleWants j
   | "clijudge" => CliD.handleJudge j
